@@ -168,6 +168,10 @@ func checkC01(c *Check) {
 		name := fmt.Sprintf("hold in %s (%s)", f.Fn.Name(), f.EP)
 		c.Cond(ok, "emit-from-own-session", name, f.Pos(p), why, "an event is held in a session object it does not belong to: "+why)
 	}
+	// the login handed to the correlator is the event parsed from that very
+	// line (its own subjects map, the PID of that line): rules of C05
+	nl := importRules(c, "C05", checkC05, "login-as-parsed: ", "same-event", "event-slots", "cred-user-id", "pid-from-line")
+	c.Floor("imported login-as-parsed obligations", 10, nl)
 }
 
 // renderRule: the renderer copies identity only from the receiver's login.
